@@ -61,14 +61,17 @@ def config(ctx, i, lim):
     return mem, st
 
 
+NLJ_FALLBACK_MSGS = ("partition not used yet", "inner future panicked during poll", "Left side produced no data to spill")
+
+
 def finding_key(r, ref_ops, cls=None):
-    if cls == "wrong_result" and r.get("counters", {}).get("spill_writes", 0) > 0 \
-            and any(o.split(":")[0] == "NestedLoopJoinExec" and o.split(":")[-1] in ("Left", "LeftSemi", "LeftAnti", "LeftMark") for o in ref_ops) \
-            and any(o.startswith("RepartitionExec") for o in ref_ops):
-        return "nlj-memory-limited-fallback-left-emitting-join-multi-partition"
-    if r.get("outcome") == "panic" and "partition not used yet" in (r.get("err") or "") \
-            and any(o.startswith("NestedLoopJoinExec") for o in ref_ops) and any(o.startswith("RepartitionExec") for o in ref_ops):
+    """Narrow keys of genuine engine defects (known_findings.json); anything else raises."""
+    nlj = any(o.split(":")[0] == "NestedLoopJoinExec" for o in ref_ops)
+    text = (r.get("err") or "") + " " + (r.get("err_root") or "")
+    if nlj and cls in ("panic", "other_error") and any(m in text for m in NLJ_FALLBACK_MSGS):
         return "nlj-oom-fallback-reexecutes-left-child-with-repartition"
+    if nlj and cls == "wrong_result" and r.get("counters", {}).get("spill_writes", 0) > 0:
+        return "nlj-memory-limited-fallback-left-emitting-join-multi-partition"
     if r.get("outcome") == "err" and "ran out of memory with no aggregated groups" in (r.get("err_root") or "") \
             and any(o.startswith("AggregateExec:Single") for o in ref_ops):
         return "aggregate-oom-with-no-groups-reports-internal-error"
